@@ -287,10 +287,13 @@ let oracle_build lv t s d (obs : string) : string =
     match String.split_on_char '|' (after "ok:" obs) with
     | [gvtext; view] ->
       if view = string_of_dm d then "ok" else
+      (match asm repaired lv narrow32 t s (zero_of s) false d with
+       | Err XRange | Err XNegUint -> "fail:bind_int_narrowing"
+       | _ ->
       if (try gv_has_big_uint s (gv_of_string gvtext) with _ -> false) then "fail:bind_uint_kind_overflow" else
         (match asm repaired lv narrow32 t s (zero_of s) false d with
          | Err XRange -> "fail:bind_int_narrowing"
-         | _ -> if fit then "fail:" ^ first_or "build_mismatch" (features t s) else "ok")
+         | _ -> if fit then "fail:" ^ first_or "build_mismatch" (features t s) else "ok"))
     | _ -> "fail:malformed_obs"
   end else if fit then "fail:" ^ first_or "build_rejected" (features t s)
   else if starts_with "panic" obs then "fail:" ^ first_or "panic" (features t s)
